@@ -88,6 +88,7 @@ func ChildMain(args []string) {
 			}
 		}
 	}()
+	MemoryWatchdog(run, 2, func() { flush(true); os.Exit(0) })
 	fn(run, batch, nb, &Journal{f: jf})
 	close(stopFlush)
 	flush(true)
